@@ -2,7 +2,7 @@
     stay Coq datatypes; no Extract Constant). Run coqc from the ocaml/ directory. *)
 Require Extraction.
 Require Import ExtrOcamlBasic.
-From IAVL Require Import Bytes Varint Sha256 Tree VMap MTree KV Iter ExportImport Codec Diff Store Ics23 VersionFacts PruneAlgo FastLife Discover.
+From IAVL Require Import Bytes Varint Sha256 Tree VMap MTree KV Iter ExportImport Codec Diff Store Ics23 VersionFacts PruneAlgo FastLife Discover Crash.
 
 Definition m_step := MTree.step sha256.
 Definition m_init := MTree.init_state.
@@ -15,6 +15,7 @@ Definition prune_forest_sha := PruneAlgo.prune_forest sha256.
 Definition prune_forest_disks_sha := PruneAlgo.prune_forest_disks sha256.
 Definition readable_sha := PruneAlgo.readable sha256.
 Definition fstep_sha := FastLife.fstep sha256.
+Definition commit_node_ops_sha := Store.commit_node_ops sha256.
 
 Extraction "model.ml" m_step m_init bcmp sha256 uvarint_enc uvarint_dec varint_enc varint_dec
   bytes_enc bytes_dec be_enc be_dec
@@ -27,4 +28,5 @@ Extraction "model.ml" m_step m_init bcmp sha256 uvarint_enc uvarint_dec varint_e
   Diff.extract Diff.net Store.expected_store Store.expected_fast commit_ops_sha
   get_proof_sha Ics23.marshal_commitment_proof VersionFacts.in_contractb
   prune_forest_sha prune_forest_disks_sha readable_sha PruneAlgo.phys_of PruneAlgo.rekeyed
-  fstep_sha FastLife.finit Discover.discovered_available.
+  fstep_sha FastLife.finit Discover.discovered_available
+  commit_node_ops_sha Crash.recover Crash.image.
